@@ -134,15 +134,17 @@ class Problem:
         return "(set-logic %s)" % ("QF_UF" if self.logic == "QF_BOOL" else self.logic)
 
 
-def single_query(logic, rng, options=(), n_assert=None, big=False):
+def single_query(logic, rng, options=(), n_assert=None, big=False, after_check=None):
     p = Problem(logic, rng, big=big)
     asserts = [p.assertion() for _ in range(n_assert or rng.randint(3, 7))]
     lines = [f"(set-option {o})" for o in options] + [p.set_logic()] + p.decls
     lines += [f"(assert {smt(a)})" for a in asserts] + ["(check-sat)"]
+    if after_check:
+        lines += after_check(p, rng)
     return p, asserts, "\n".join(lines) + "\n"
 
 
-def history(logic, rng, options=(), steps=None, big=False):
+def history(logic, rng, options=(), steps=None, big=False, after_check=None, named=False):
     """push/pop/assert/check interleaving; returns (problem, script text, list of active-assertion lists, one per
     check-sat in order)."""
     p = Problem(logic, rng, big=big)
@@ -150,6 +152,7 @@ def history(logic, rng, options=(), steps=None, big=False):
     lines = [f"(set-option {o})" for o in options] + [p.set_logic()] + p.decls
     stack = [[]]
     checks = []
+    nm_counter = [0]
     for _ in range(steps or rng.randint(8, 22)):
         c = rng.random()
         if c < 0.2:
@@ -160,11 +163,28 @@ def history(logic, rng, options=(), steps=None, big=False):
             stack.pop()
         elif c < 0.7:
             a = rng.choice(pool)
-            lines.append(f"(assert {smt(a)})")
+            if named and rng.random() < 0.7:
+                nm_counter[0] += 1
+                lines.append(f"(assert (! {smt(a)} :named N{nm_counter[0]}))")
+            else:
+                lines.append(f"(assert {smt(a)})")
             stack[-1].append(a)
         else:
             lines.append("(check-sat)")
             checks.append([x for fr in stack for x in fr])
+            if after_check:
+                lines += after_check(p, rng)
     lines.append("(check-sat)")
     checks.append([x for fr in stack for x in fr])
+    if after_check:
+        lines += after_check(p, rng)
     return p, "\n".join(lines) + "\n", checks
+
+
+def model_queries(p, rng):
+    """(get-model) and a (get-value ...) over a few terms of the problem"""
+    ts = [smt(rng.choice(p.bools))]
+    if p.nums:
+        ts += [smt(rng.choice(p.nums)), smt(p.nterm(2))]
+    ts.append(smt(p.fla(1)))
+    return ["(get-model)", "(get-value (" + " ".join(ts) + "))"]
